@@ -338,6 +338,13 @@ def _rw_cases(tier, rng):
             if rng.random() < 0.5:
                 ren[n] = n.replace(".", "_") + "_r"
         yield {"spec": spec, "renames": ren, "new_axis": rng.choice(["n", "i", None])}
+        # a renaming is simultaneous: targets may be sources of other entries (swaps, rotations, chains into fresh names)
+        if len(names) >= 2:
+            sub = rng.sample(names, rng.randint(2, min(3, len(names))))
+            rot = sub[1:] + [rng.choice((sub[0], sub[0], "fresh_name"))]
+            items = list(zip(sub, rot))
+            rng.shuffle(items)
+            yield {"spec": spec, "renames": dict(items), "new_axis": None}
 
 
 def _check_rw(case):
